@@ -69,12 +69,7 @@ func (r *Real64) MAX(a, b *Real64) Scalar {
 }
 /* -------------------------------------------------------------------------- */
 func (c *Real64) ABS(a *Real64) Scalar {
-  if c.Sign() == -1 {
-    c.NEG(a)
-  } else {
-    c.SET(a)
-  }
-  return c
+  return c.Abs(a)
 }
 /* -------------------------------------------------------------------------- */
 func (c *Real64) NEG(a *Real64) *Real64 {
